@@ -108,6 +108,8 @@ STD = {
     "option::Option::<T>::or_else": "or_else", "option::Option::<T>::unwrap_or_else": "unwrap_or_else", "option::Option::<T>::ok_or_else": "ok_or_else",
     "option::Option::<T>::map": "map", "option::Option::<T>::and_then": "and_then", "option::Option::<T>::filter": "filter",
     "bool::then": "then", "<impl bool>::then": "then",
+    "result::Result::<T, E>::or_else": "r_or_else", "result::Result::<T, E>::unwrap_or_else": "r_unwrap_or_else", "result::Result::<T, E>::map": "r_map",
+    "result::Result::<T, E>::map_err": "r_map_err", "result::Result::<T, E>::and_then": "r_and_then",
     "iterator::Iterator::any": "any", "iterator::Iterator::all": "all", "iterator::Iterator::find": "find", "iterator::Iterator::find_map": "find_map",
     "iterator::Iterator>::any": "any", "iterator::Iterator>::all": "all", "iterator::Iterator>::find": "find", "iterator::Iterator>::find_map": "find_map",
 }
@@ -243,7 +245,8 @@ def normalise(F, fn, keep=(), depth=3, _stack=()):
             else:
                 args = t["args"]
                 fi = {"or_else": 1, "unwrap_or_else": 1, "ok_or_else": 1, "map": 1, "and_then": 1, "filter": 1, "then": 1,
-                      "any": 1, "all": 1, "find": 1, "find_map": 1}[kind]
+                      "any": 1, "all": 1, "find": 1, "find_map": 1,
+                      "r_or_else": 1, "r_unwrap_or_else": 1, "r_map": 1, "r_map_err": 1, "r_and_then": 1}[kind]
                 fv = function_value(F, B.raw, fn.crate, args[fi]) if len(args) > fi else None
                 if fv is None or (fv[0] == "closure" and (depth <= 0 or fv[1].id in _stack)):
                     continue
@@ -288,6 +291,36 @@ def normalise(F, fn, keep=(), depth=3, _stack=()):
                     unreach = B.block([], {"k": "unreachable", "loc": loc})
                     entry = B.block([assign({"l": d, "p": [], "ty": "isize"}, dict(OPT, k="discr", place=x), loc)],
                                     {"k": "switch", "discr": {"move": {"l": d, "p": [], "ty": "isize"}}, "dty": "isize", "targets": [[0, none], [1, some]], "otherwise": unreach, "loc": loc})
+                elif kind.startswith("r_"):
+                    # Result combinators: Ok is variant 0, Err is variant 1
+                    RES = {"variants": [[0, "Ok"], [1, "Err"]], "enum": "core::result::Result"}
+                    d = B.local("isize")
+                    okp = payload(x, "Ok", 0)
+                    erp = payload(x, "Err", 1)
+                    ok_pass = lambda: B.block([assign(dest, agg("core::result::Result", "Ok", [{"move": okp}]), loc)], dict(go_t))
+                    err_pass = lambda: B.block([assign(dest, agg("core::result::Result", "Err", [{"move": erp}]), loc)], dict(go_t))
+                    if kind == "r_or_else":
+                        okb = ok_pass()
+                        erb = call_fv(fv, [{"move": erp}], dest, target)
+                    elif kind == "r_unwrap_or_else":
+                        okb = B.block([assign(dest, use_move(okp), loc)], dict(go_t))
+                        erb = call_fv(fv, [{"move": erp}], dest, target)
+                    elif kind == "r_and_then":
+                        okb = call_fv(fv, [{"move": okp}], dest, target)
+                        erb = err_pass()
+                    elif kind == "r_map":
+                        v = B.local("?")
+                        k2_ = B.block([assign(dest, agg("core::result::Result", "Ok", [{"move": {"l": v, "p": [], "ty": "?"}}]), loc)], dict(go_t))
+                        okb = call_fv(fv, [{"move": okp}], {"l": v, "p": [], "ty": "?"}, k2_)
+                        erb = err_pass()
+                    else:   # r_map_err
+                        v = B.local("?")
+                        k2_ = B.block([assign(dest, agg("core::result::Result", "Err", [{"move": {"l": v, "p": [], "ty": "?"}}]), loc)], dict(go_t))
+                        erb = call_fv(fv, [{"move": erp}], {"l": v, "p": [], "ty": "?"}, k2_)
+                        okb = ok_pass()
+                    unreach = B.block([], {"k": "unreachable", "loc": loc})
+                    entry = B.block([assign({"l": d, "p": [], "ty": "isize"}, dict(RES, k="discr", place=x), loc)],
+                                    {"k": "switch", "discr": {"move": {"l": d, "p": [], "ty": "isize"}}, "dty": "isize", "targets": [[0, okb], [1, erb]], "otherwise": unreach, "loc": loc})
                 elif kind == "then":
                     v = B.local("?")
                     k2_ = B.block([assign(dest, agg("core::option::Option", "Some", [{"move": {"l": v, "p": [], "ty": "?"}}]), loc)], dict(go_t))
